@@ -13,6 +13,18 @@ running the program, for every host, argument list, state and call depth.
 namespace Verif.Props.C01D
 open Verif.Spec.JsDeclSem Verif.Model.JsHoist Verif.Proofs.JsDecl
 
+/-! ## the side conditions of the code (read from /repo/js on every run, `Gen/JsHoistFacts.lean`) -/
+
+/-- since 7a74d62 `mergeVarDeclExprStmt` requires the assignment target to be declared in the function of the
+    declaration (`declaredInFunc`); a change of that test changes the generated fact and breaks this theorem -/
+theorem code_checks_own_function : Verif.Gen.JsHoistFacts.mergeChecksOwnFunction = true := by decide
+
+/-- since 08b5a55 `endsInIf` optimizes a loop body before it looks at its last statement (K-C01D-6) -/
+theorem code_optimizes_loops_in_endsInIf : Verif.Gen.JsHoistFacts.endsInIfOptimizesLoops = true := by decide
+
+/-- since 6dcb230 a loop body that is a `var` declaration without items is written as `;` (K-C01D-7) -/
+theorem code_writes_empty_decl_body : Verif.Gen.JsHoistFacts.emptyDeclBodyWritesSemicolon = true := by decide
+
 /-! ## the rewrites -/
 
 /-- `k l1; k l2 → k l1,l2` (adjacent `var` / `let` / `const` declarations) -/
@@ -26,6 +38,15 @@ def MergeAssign (x : String) (l l' : List DS) : Prop :=
       l' = .decl .var (addDefinition .var items (.assign x a e) false) :: rest) ∨
     (l = .expr (.assign x a e) :: .decl .var items :: rest ∧
       l' = .decl .var (addDefinition .var items (.assign x a e) true) :: rest)
+
+/-- the same rewrite with the test that the code performs on the assignment target (`mergeAllowed`; `own` = the `var`
+    names of the function whose body is rewritten) -/
+def MergeAssignChecked (own : List String) (x : String) (l l' : List DS) : Prop :=
+  ∃ items a e rest, mergeAllowed own a x = true ∧
+    ((l = .decl .var items :: .expr (.assign x a e) :: rest ∧
+      l' = .decl .var (addDefinition .var items (.assign x a e) false) :: rest) ∨
+    (l = .expr (.assign x a e) :: .decl .var items :: rest ∧
+      l' = .decl .var (addDefinition .var items (.assign x a e) true) :: rest))
 
 /-- a hoisted declaration (a `var` that `hoistVars` turned into an expression) merged back into a `var` declaration
     next to it (`mergeVarDecls`) -/
@@ -89,14 +110,14 @@ example : Within [] MergeDecls
 
 /-! ## (b) `var a;a=5 → var a=5` -/
 
-/-- **merge_assign_sound**, full strength: the condition the Go code checks is that the `Var` object of the assignment
+/-- the statement with only the condition that the Go code checked BEFORE 7a74d62: the `Var` object of the assignment
     target has `Decl == VariableDecl` (`a.decl = 1`).  Stated on the observable trace. -/
 def traceOf : Result → List Ev
   | .done (.ok _ s) => s.trace
   | .done (.thr _ s) => s.trace
   | _ => []
 
-def merge_assign_sound_full : Prop :=
+def merge_assign_unchecked : Prop :=
   ∀ (H : Host) (d : Nat) (s0 : St) (pre rest : List DS) (f : String) (fa : Ann) (ps : List (String × Ann))
     (items : List DE) (x : String) (a : Ann) (e : DE) (brest : List DS), a.decl = 1 →
     traceOf (runProg H d (pre ++ .fn f fa ps
@@ -111,17 +132,17 @@ def cxState : St := ⟨[fun x => if x == "g" then some ⟨some (.host "g"), fals
 def cxRest : List DS :=
   [.expr (.call (.var "f" {}) []), .decl .var [.var "b" {}], .expr (.call (.var "g" {}) [.var "b" {}])]
 
-/-- **merge_assign_sound_counterexample** (K-C01D-4): `function f(){var d=0;b=1}f();var b;g(b)` becomes
-    `function f(){var d=0,b=1}…`: `b` is now local to `f`, the host sees `undefined` instead of `1`. -/
-theorem merge_assign_sound_counterexample : ¬ merge_assign_sound_full := by
+/-- **merge_assign_needs_own_function** (K-C01D-4, fixed by 7a74d62): without the test `declaredInFunc` the merge is
+    unsound — `function f(){var d=0;b=1}f();var b;g(b)` becomes `function f(){var d=0,b=1}…`: `b` is local to `f`, the
+    host sees `undefined` instead of `1`.  (Kept as the reason for the side condition; the current code has it.) -/
+theorem merge_assign_needs_own_function : ¬ merge_assign_unchecked := by
   intro h
   have := h cxHost 3 cxState [] cxRest "f" {} [] [.assign "d" {} (.num 0)] "b" { decl := 1 } (.num 1) [] rfl
   revert this
   decide
 
-/-- **merge_assign_sound_partial**: the merge (both directions, anywhere in the body) preserves the outcome of calling
-    the function when `x` is declared by the function itself (`var`, parameter or function) and no block around the
-    place, nor the body, declares `x` with let / const — what `Decl == VariableDecl` is meant to express. -/
+/-- the merge (both directions, anywhere in the body) preserves the outcome of calling the function when `x` is declared
+    by the function itself (`var`, parameter or function) and no block around the place declares `x` with let / const -/
 theorem merge_assign_sound_partial (H : Host) (n : Nat) (ps : List String) (cenv : Env) (args : List Val)
     (x : String) (body body' : List DS) (h : Within [x] (MergeAssign x) body body')
     (hx : declaredIn ps body x = true) :
@@ -148,6 +169,48 @@ theorem merge_assign_sound_partial_prog (H : Host) (d : Nat) (s0 : St) (x : Stri
     · obtain ⟨rfl, rfl⟩ := h
       exact mergeAssignFwd_eq items x a e rest)
   exact (runProg_congr H d s0 heq hx.1 hx.2).symm
+
+theorem mergeAllowed_own {own : List String} {a : Ann} {x : String} (h : mergeAllowed own a x = true) :
+    own.contains x = true := by
+  unfold mergeAllowed at h
+  rw [code_checks_own_function] at h
+  simp only [Bool.not_true, Bool.false_or, Bool.and_eq_true] at h
+  exact h.2
+
+/-- **merge_assign_sound** (full for the current code): `var items;x=e → var items',x=e` and `x=e;var items →
+    var x=e,items'`, anywhere in the body of a function, under exactly the test that `mergeVarDeclExprStmt` performs
+    (`mergeAllowed` with the `var` names of that function: `Decl == VariableDecl` and `declaredInFunc`), preserve the
+    outcome of calling the function.  (`Within`: the occurrence is not shadowed by a let / const of a block around it —
+    the parser's contract for an occurrence that is the function's own `var`.) -/
+theorem merge_assign_sound (H : Host) (n : Nat) (ps : List String) (cenv : Env) (args : List Val)
+    (x : String) (body body' : List DS) (h : Within [x] (MergeAssignChecked (varNamesL body) x) body body') :
+    callN H (n + 1) (.clo ps body' cenv) args = callN H (n + 1) (.clo ps body cenv) args := by
+  obtain ⟨_, _, items, a, e, rest, hal, _⟩ := h.exists
+  have hx : declaredIn ps body x = true := by
+    simp only [declaredIn, mergeAllowed_own hal, Bool.true_or]
+  exact merge_assign_sound_partial H n ps cenv args x body body'
+    (h.mono (by
+      rintro l l' ⟨items, a, e, rest, _, hh⟩
+      exact ⟨items, a, e, rest, hh⟩)) hx
+
+/-- the same for the program -/
+theorem merge_assign_sound_prog (H : Host) (d : Nat) (s0 : St) (x : String) (prog prog' : List DS)
+    (h : Within [x] (MergeAssignChecked (varNamesL prog) x) prog prog') (hl : meets (lexNamesL prog) [x] = false) :
+    runProg H d prog' s0 = runProg H d prog s0 := by
+  obtain ⟨_, _, items, a, e, rest, hal, _⟩ := h.exists
+  have hx : ∀ y, [x].contains y = true → declaredIn [] prog y = true := by
+    intro y hy
+    have : y = x := by simpa using hy
+    subst this
+    simp only [declaredIn, mergeAllowed_own hal, Bool.true_or]
+  exact merge_assign_sound_partial_prog H d s0 x prog prog'
+    (h.mono (by
+      rintro l l' ⟨items, a, e, rest, _, hh⟩
+      exact ⟨items, a, e, rest, hh⟩)) ⟨hx, hl⟩
+
+/-- non-vacuity: the test passes for `var a,b;b=5` and fails for the `b` of K-C01D-4 -/
+example : mergeAllowed ["a", "b"] { decl := 1 } "b" = true := by decide
+example : mergeAllowed ["d"] { decl := 1 } "b" = false := by decide
 
 /-- non-vacuity: `var a,b;b=5` at the top of a body that declares `b` -/
 example : Within ["b"] (MergeAssign "b")
